@@ -124,6 +124,8 @@ func facts(b *bytes.Buffer, pkg *types.Package, files []*ast.File, decls map[str
 
 	// 2. fields a method assigns directly on its receiver (e.f = ...)
 	var assigns [][2]string
+	var assignRhs [][2]string
+	var fieldReads [][2]string
 	// 3. ordered callees of every function
 	var calls [][2]string
 	// 4. calls whose error result is dropped
@@ -196,6 +198,9 @@ func facts(b *bytes.Buffer, pkg *types.Package, files []*ast.File, decls map[str
 						if sel, ok := lhs.(*ast.SelectorExpr); ok && recv != "" {
 							if id, ok := sel.X.(*ast.Ident); ok && id.Name == recv {
 								assigns = append(assigns, [2]string{n, sel.Sel.Name})
+								if i < len(s.Rhs) {
+									assignRhs = append(assignRhs, [2]string{n + "." + sel.Sel.Name, strings.ReplaceAll(strings.Join(strings.Fields(types.ExprString(s.Rhs[i])), " "), "…", "...")})
+								}
 							}
 						}
 					}
@@ -220,6 +225,12 @@ func facts(b *bytes.Buffer, pkg *types.Package, files []*ast.File, decls map[str
 						}
 					}
 				}
+			case *ast.SelectorExpr:
+				if s.Sel.Name == "err" {
+					if tv, ok := info.Types[s.X]; ok && tv.Type != nil && strings.Contains(tv.Type.String(), "stickyWriter") {
+						fieldReads = append(fieldReads, [2]string{n, "stickyWriter.err"})
+					}
+				}
 			case *ast.CallExpr:
 				if ftv, ok := info.Types[s.Fun]; ok && ftv.IsType() {
 					return true
@@ -236,6 +247,8 @@ func facts(b *bytes.Buffer, pkg *types.Package, files []*ast.File, decls map[str
 	}
 	// package-level var initialisers run at init; assignments inside init() are reported under "init"
 	fmt.Fprintf(b, "Definition receiver_assigns : list (string * string) :=\n  %s.\n\n", pairList(assigns))
+	fmt.Fprintf(b, "Definition receiver_assign_rhs : list (string * string) :=\n  %s.\n\n", pairList(assignRhs))
+	fmt.Fprintf(b, "Definition field_reads : list (string * string) :=\n  %s.\n\n", pairList(fieldReads))
 	fmt.Fprintf(b, "Definition calls : list (string * string) :=\n  %s.\n\n", pairList(calls))
 	fmt.Fprintf(b, "Definition dropped_errors : list (string * string) :=\n  %s.\n\n", pairList(dropped))
 	fmt.Fprintf(b, "Definition pkg_var_writes : list (string * string) :=\n  %s.\n\n", pairList(pkgWrites))
